@@ -266,6 +266,10 @@ class Evaluator:
                 return SV("newaxis")
             if n.attr == "T":
                 return self.ev(n.value)
+            if n.attr == "shape":
+                v_ = self.ev(n.value)
+                if v_.kind == "cyc":
+                    return SV("tuple", items=[SV("scal", [Poly.atom("NV")]), SV("scal", [Poly.const(len(v_.comps))])])
             raise NotInFragment(f"attr {key}")
         if isinstance(n, ast.UnaryOp) and isinstance(n.op, ast.USub):
             v = self.ev(n.operand)
@@ -517,7 +521,9 @@ class Evaluator:
                 kind = "cyc" if "cyc" in (a.kind, b.kind) else "scal"
                 return SV(kind, [tot], a.summed or b.summed)
             raise NotInFragment("dot")
-        if f.endswith(".squeeze") or f.endswith(".copy"):
+        if f.endswith(".squeeze") or f.endswith(".copy") or f.endswith(".reshape") or f.endswith(".astype"):
+            # x.reshape(n, 1, 3) / x.reshape(-1, 1): only axes of length one are inserted or removed when the row structure is kept
+            # (as x[:, None]); the symbolic rows are unchanged
             return self.ev(n.func.value)
         if f.endswith(".dot"):
             a, b = self.ev(n.func.value), self.ev(args[0])
